@@ -299,8 +299,9 @@ def r5_missing_shortcut(ctx):
 
 from .c20 import r2_private_mutator_call_sites as _parser_call_sites_own_their_text   # the decimal parser overwrites signs / dots in place: every caller hands it a copy
 
-from ..through_time import make_rule as _mk_tt
+from ..through_time import make_rule as _mk_tt, make_t2 as _mk_t2
 _through_time = _mk_tt("C18")
+_small_edits = _mk_t2("C18")
 
 def _delta_arrays(ctx):
     from ..idioms import check_delta_arrays
@@ -314,5 +315,6 @@ RULES = [
     ("C18-R5", r5_missing_shortcut),
     ("C18-R6", _parser_call_sites_own_their_text),
     ("C18-T1", _through_time),
+    ("C18-T2", _small_edits),
     ("C18-R7", _delta_arrays),
 ]
